@@ -141,6 +141,7 @@ class LocalAdapter:
             d ^= self._h(k, v)
         self.dig = d
         self.flock_holder = None
+        self._holder_fd = None
         self.publish_log = []
         self.op_log = []
         FD_PATH.clear()
@@ -210,15 +211,20 @@ class LocalAdapter:
 
                 if ev.flags & fcntl.LOCK_UN:
                     self.flock_holder = None
+                    self._holder_fd = None
                 else:
                     self.flock_holder = root_actor(ev.actor)
+                    self._holder_fd = ev.fd
                 wrote = True
                 obs = "ok"
             elif fn == "close" and exc is None:
-                if self.flock_holder == root_actor(ev.actor) and ev.path and ev.path.endswith(".lock"):
-                    # closing the fd drops the flock as well
-                    pass
-                wrote = True
+                # closing the fd that holds the flock releases it; closing the fd of a
+                # FAILED attempt changes nothing anybody can observe (and must not wake
+                # other pollers, or two waiters keep waking each other forever)
+                if getattr(self, "_holder_fd", None) == ev.fd:
+                    self.flock_holder = None
+                    self._holder_fd = None
+                    wrote = True
         elif exc is None:
             if fn == "replace":
                 k = self.rel(ev.path2)
